@@ -292,11 +292,13 @@ fn quote_event(out: &mut Vec<J>, s: &str, pos: &str, style: &str, tok: Option<St
                     Ok(Err(_)) => "err",
                     Err(()) => "panic",
                 };
-                let d = match guard(|| toml_edit::DocumentMut::from_str(&format!("{t} = 1\nx.{t} = 2\n")).map_err(|e| e.to_string())) {
+                // the parent key of the dotted use must not be the key under test
+                let parent = if s == "x" { "y" } else { "x" };
+                let d = match guard(|| toml_edit::DocumentMut::from_str(&format!("{t} = 1\n{parent}.{t} = 2\n")).map_err(|e| e.to_string())) {
                     Ok(Ok(doc)) => {
                         let ok1 = doc.as_table().iter().next().map(|(k, _)| k == s).unwrap_or(false);
-                        let ok2 = doc.get("x").and_then(|x| x.as_table_like()).map(|t| t.iter().any(|(k, _)| k == s)).unwrap_or(false);
-                        if ok1 && (ok2 || s == "x") { "same" } else { "differs" }
+                        let ok2 = doc.get(parent).and_then(|x| x.as_table_like()).map(|t| t.iter().any(|(k, _)| k == s)).unwrap_or(false);
+                        if ok1 && ok2 { "same" } else { "differs" }
                     }
                     Ok(Err(_)) => "err",
                     Err(()) => "panic",
@@ -365,9 +367,21 @@ pub fn quote_events(args: &Args) {
     let nrand = args.num("random", 0);
     let mut rng = StdRng::seed_from_u64(args.num("seed", 1));
     let mut out = out_writer(args);
-    let mut cur: Vec<String> = vec![String::new()];
-    quote_all(&mut out, "");
-    for _ in 0..maxlen {
+    // --first F : only the strings whose first symbol is QALPHA[F] (slices of the exhaustive level, so that
+    // length 6 fits on disk one slice at a time)
+    let first = args.get("first").map(|x| x.parse::<usize>().expect("first"));
+    let mut cur: Vec<String> = match first {
+        Some(f) => {
+            let s0 = QALPHA[f].to_string();
+            quote_all(&mut out, &s0);
+            vec![s0]
+        }
+        None => {
+            quote_all(&mut out, "");
+            vec![String::new()]
+        }
+    };
+    for _ in 0..(if first.is_some() { maxlen - 1 } else { maxlen }) {
         let mut next = Vec::with_capacity(cur.len() * QALPHA.len());
         for s in &cur {
             for c in QALPHA {
@@ -378,6 +392,15 @@ pub fn quote_events(args: &Args) {
             }
         }
         cur = next;
+    }
+    // the writers match per byte: every ASCII byte is potentially a class of its own
+    if first.is_none() {
+        for b in 0u8..128 {
+            let c = b as char;
+            for s in [format!("{c}"), format!("a{c}a"), format!("{c}\""), format!("{c}'"), format!("{c}\n")] {
+                quote_all(&mut out, &s);
+            }
+        }
     }
     for _ in 0..nrand {
         let len = rng.gen_range(5..40);
